@@ -128,7 +128,7 @@ struct LibScope {
   explicit LibScope(const char* op) {
     HeapMon& h = heapmon();
     if (!h.installed) { h.installed = true; __sanitizer_install_malloc_and_free_hooks(c19_malloc_hook, c19_free_hook); }
-    c19ctx().op = op;
+    c19ctx().set_op(op);
     saved_op = h.cur_op;
     const uint32_t id = heap_op_id(op);
     if (h.lib_depth == 0) h.n_in_scope = 0;
@@ -225,7 +225,7 @@ template<typename F> struct Program {
   void cnt(const char* what) { count(fam + "." + what); }
   void tr(const std::string& s) { if (trace.size() < 1500) { trace += s; trace += ';'; } }
 
-  std::string read(const S& s) { c19ctx().op = "read-out"; return F::readout(s.co(), cfg); }
+  std::string read(const S& s) { c19ctx().set_op("read-out"); return F::readout(s.co(), cfg); }
 
   // every valid object of the pool still has the read-out it is expected to have
   void verify_all(const char* after, const S* skip = nullptr) {
@@ -484,7 +484,7 @@ template<typename F> struct Program {
       destroy(s, "destroy");
       verify_all("destroy");
     }
-    c19ctx().op = "end-of-case";
+    c19ctx().set_op("end-of-case");
     // allocator: nothing remains
     for (Arena* a : {&arena0, &arena1}) {
       checked();
